@@ -4,6 +4,7 @@ import glob
 import hashlib
 import json
 import os
+import re
 import shutil
 import subprocess
 import sys
@@ -74,21 +75,73 @@ def vs_overlay():
     return m
 
 
+# ------------------------------------------------------------------------------------------------
+# harness identifiers colliding with identifiers of the package under test
+
+COLLISION = re.compile(r"\b(\w+) redeclared in this block")
+
+
+def rename_copies(files, renames, work):
+    """files: {key: real path of a harness source file}.  Returns the same dict pointing at copies in
+    which every identifier in renames is replaced (gofmt -r), so that a harness keeps building when
+    the package under test starts using one of the harness's package-level names."""
+    if not renames:
+        return files
+    d = os.path.join(work, "renamed")
+    os.makedirs(d, exist_ok=True)
+    out = {}
+    for k, real in files.items():
+        dst = os.path.join(d, "%s_%s" % (abs(hash(real)) % 100000, os.path.basename(real)))
+        shutil.copy(real, dst)
+        for old, new in renames.items():
+            p = subprocess.run(["gofmt", "-r", "%s -> %s" % (old, new), "-w", dst], stdout=subprocess.PIPE, stderr=subprocess.STDOUT, text=True)
+            if p.returncode != 0:
+                log("gofmt -r failed on %s: %s" % (dst, p.stdout))
+                raise SystemExit(2)
+        out[k] = dst
+    return out
+
+
+def collisions(output, renames):
+    """New colliding identifiers named by a failed build's output."""
+    return sorted(set(COLLISION.findall(output or "")) - set(renames))
+
+
 def build_harness(name, pkgs, test_pkg, harness_files, instrument=True, adds=None, seams=None,
                   race=False, hide_repo_tests=True, extra_overlay=None, keep_time=None, tags=None, captures=None):
     """Instrument pkgs (list of repo-relative dirs), overlay harness files into test_pkg and build a
     test binary.  harness_files: {filename-in-test_pkg: real path}.  adds: {repo-relative virtual
     path: real path} non-test files that are loaded into their package and instrumented.
-    Returns the path of the test binary."""
+    Returns the path of the test binary.  A package-level harness identifier that collides with one
+    of the package under test is renamed in a copy of the harness files and the build is repeated."""
     t0 = time.time()
     work = workdir(name + ("-race" if race else ""))
+    renames = {}
+    for attempt in range(6):
+        ok, output, out = _build_harness_once(work, pkgs, test_pkg, rename_copies(harness_files, renames, work), instrument,
+                                              rename_copies(adds or {}, renames, work), seams, race, hide_repo_tests, extra_overlay, keep_time, tags, captures)
+        if ok:
+            if renames:
+                log("[build] harness identifiers renamed to avoid collisions with the package: %s" % ", ".join(sorted(renames)))
+            log("[build] %s%s in %.1fs" % (name, " (race)" if race else "", time.time() - t0))
+            return out
+        new = collisions(output, renames)
+        if not new:
+            log(output or "")
+            raise SystemExit(2)
+        for n in new:
+            renames[n] = "verifh_" + n
+    log(output or "")
+    raise SystemExit(2)
+
+
+def _build_harness_once(work, pkgs, test_pkg, harness_files, instrument, adds, seams, race, hide_repo_tests, extra_overlay, keep_time, tags, captures):
     mf = modfile(work)
     overlay = {}
     overlay.update(vs_overlay())
     src = os.path.join(work, "src")
     shutil.rmtree(src, ignore_errors=True)
     os.makedirs(src, exist_ok=True)
-    adds = adds or {}
     if instrument and pkgs:
         instr = ensure_tools()
         cmd = [instr, "-repo", REPO, "-modfile", mf, "-out", src]
@@ -102,7 +155,9 @@ def build_harness(name, pkgs, test_pkg, harness_files, instrument=True, adds=Non
             cmd += ["-capture", s]
         if keep_time:
             cmd += ["-keep-time", ",".join(keep_time)]
-        run(cmd, cwd=REPO)
+        p = run(cmd, cwd=REPO, check=False)
+        if p.returncode != 0:
+            return False, "command failed: %s\n%s" % (" ".join(cmd), p.stdout), None
         overlay.update(json.load(open(os.path.join(src, "mapping.json"))))
     else:
         for v, real in adds.items():
@@ -126,9 +181,10 @@ def build_harness(name, pkgs, test_pkg, harness_files, instrument=True, adds=Non
     if tags:
         cmd += ["-tags", tags]
     cmd.append("./" + test_pkg)
-    run(cmd, cwd=REPO)
-    log("[build] %s%s in %.1fs" % (name, " (race)" if race else "", time.time() - t0))
-    return out
+    p = run(cmd, cwd=REPO, check=False)
+    if p.returncode != 0:
+        return False, "command failed: %s\n%s" % (" ".join(cmd), p.stdout), None
+    return True, "", out
 
 
 # ------------------------------------------------------------------------------------------------
